@@ -93,9 +93,9 @@ Small   == Alpha({1, 2}, {"out", "app"}, {"a", "m"}, {}, {"closeout"})
            \cup Alpha({1, 2}, {"dupout"}, {}, {1, 2, 3}, {})
            \cup {R(3, "in", "a", -1), R(3, "out", "m", -1), R(3, "dupout", "", 1)}
            \cup Alpha({0}, {"in", "dupin"}, {"m"}, {3, 10}, {"here"})
-Mid     == Alpha({1, 2, 3}, AllOps, {"a", "m", "d"}, {1, 2, 3, 4, 10}, {"closeout", "here"})
+Mid     == Alpha({1, 3}, AllOps, {"a", "m", "d"}, {1, 2, 3, 4, 10}, {"closeout", "here"})
            \cup Alpha({0}, {"in", "rw", "dupin"}, {"a", "m"}, {3, 5, 10}, {"closein", "here"})
-Lim1    == Alpha({1, 3, 5}, AllOps, {"a", "m"}, {1, 4, 10}, {"closeout", "here"})
+Lim1    == Alpha({1, 5}, AllOps, {"a", "m"}, {1, 4, 10}, {"closeout", "here"})
 
 AllKinds  == {"special", "builtin", "function", "group", "subshell", "notfound", "empty", "exec"}
 CoreKinds == {"builtin", "special", "exec", "empty"}
@@ -129,27 +129,29 @@ Fam(c) ==
     \* quick -----------------------------------------------------------------
     \* every single redirection x every command kind, no limit
     [] c = "q1" -> Family({"std", "x35"}, BOOLEAN, {NoLimit}, AllKinds, TRUE, Seq1(Full1) \cup {<<>>})
-                     \cup Family({"full", "int"}, {FALSE}, {NoLimit}, CoreKinds, TRUE,
-                                 Seq1(Alpha({0, 1, 3}, AllOps, {"a", "m"}, {1, 4, 10}, AllMisc)))
+                   \cup Family({"full", "int"}, {FALSE}, {NoLimit}, CoreKinds, TRUE,
+                               Seq1(Alpha({0, 1, 3}, AllOps, {"a", "m"}, {1, 4, 10}, AllMisc)))
     \* single redirections under every descriptor limit
     [] c = "q2" -> Family(All4, {FALSE}, 0 .. 13, {"builtin", "exec", "empty"}, FALSE, Seq1(Lim1))
     \* pairs, no limit
-    [] c = "q3" -> Family({"std", "x35"}, BOOLEAN, {NoLimit}, CoreKinds \cup {"function"}, FALSE,
-                            Seq2(Small, Small))
-    \* pairs under the limits where the second saved copy does not fit
-    [] c = "q4" -> Family({"std", "int"}, {FALSE}, {10, 11, 12}, {"builtin", "exec", "empty"}, FALSE,
-                            Seq2(Small, Small))
+    [] c = "q3" -> Family({"std", "x35"}, BOOLEAN, {NoLimit}, CoreKinds, FALSE, Seq2(Small, Small))
+    \* pairs under the limits where the first / the second saved copy does not fit
+    [] c = "q4" -> Family({"std", "int"}, {FALSE}, {11, 12}, {"builtin", "exec", "empty"}, FALSE,
+                          Seq2(Small, Small))
     [] c = "quick" -> Fam("q1") \cup Fam("q2") \cup Fam("q3") \cup Fam("q4")
     \* a small family that exercises every action (run with -coverage)
     [] c = "cov" -> Family({"int"}, BOOLEAN, {NoLimit, 11}, AllKinds, TRUE,
-                            Seq1(Alpha({1}, AllOps, {"a", "m", "d", "t"}, {1, 4, 10}, AllMisc))
-                            \cup {<<R(1, "out", "m", -1), R(1, "app", "a", -1)>>, <<>>})
+                          Seq1(Alpha({1}, AllOps, {"a", "m", "d", "t"}, {1, 4, 10}, AllMisc))
+                          \cup {<<R(1, "out", "m", -1), R(1, "app", "a", -1)>>, <<>>})
     \* thorough --------------------------------------------------------------
-    [] c = "t1" -> Family(All4, BOOLEAN, Limits, AllKinds, TRUE, Seq1(Full1) \cup {<<>>})
-    [] c = "t2" -> Family({"std", "x35"}, BOOLEAN, {NoLimit}, AllKinds, FALSE, Seq2(Mid, Mid))
-    [] c = "t3" -> Family(All4, {FALSE}, 3 .. 13, CoreKinds \cup {"function"}, FALSE, Seq2(Small, Small))
-    [] c = "t4" -> Family({"std", "x35"}, BOOLEAN, {NoLimit, 12}, {"builtin", "exec", "empty"}, FALSE,
-                            Seq3(Small, Small, Small))
+    [] c = "t1" -> Family(All4, BOOLEAN, {NoLimit}, AllKinds, TRUE, Seq1(Full1) \cup {<<>>})
+                   \cup Family(All4, {FALSE}, 3 .. 13, AllKinds, FALSE, Seq1(Full1))
+    [] c = "t2" -> Family({"std", "x35"}, BOOLEAN, {NoLimit}, CoreKinds \cup {"function"}, FALSE,
+                          Seq2(Mid, Mid))
+    [] c = "t3" -> Family({"std", "x35", "int"}, {FALSE}, {4, 10, 11, 12, 13}, CoreKinds, FALSE,
+                          Seq2(Small, Small))
+    [] c = "t4" -> Family({"std"}, {FALSE}, {NoLimit}, {"builtin", "exec"}, FALSE,
+                          Seq3(Small, Small, Small))
     [] c = "thorough" -> Fam("t1") \cup Fam("t2") \cup Fam("t3") \cup Fam("t4")
 
 Scenarios == Fam(Cfg)
@@ -161,23 +163,19 @@ IsSpecial(kind) == kind \in {"special", "exec"}
 MarkFds == <<0, 1, 2, 3, 5>>
 Tok(f)  == CASE f = 0 -> "c0" [] f = 1 -> "c1" [] f = 2 -> "c2" [] f = 3 -> "c3" [] f = 5 -> "c5"
 
+\* kernel in which the list is applied.  A command without a name applies
+\* it in a subshell; whether the child keeps the parent's limit is the
+\* kernel's business (POSIX: yes; VirtualSystem: no).
+KStart(s) == IF s.kind = "empty" /\ Sim THEN [K0(s) EXCEPT !.lim = NoLimit] ELSE K0(s)
+
 Init ==
   /\ sc \in Scenarios
-  /\ k = K0(sc)
-  /\ pc = "begin"
+  /\ k = KStart(sc)
+  /\ pc = IF Len(sc.list) = 0 THEN "exec" ELSE "check"
   /\ i = 1 /\ saved = <<>> /\ cur = -1 /\ spec = [own |-> FALSE, fd |-> -1]
   /\ failed = 0 /\ ran = FALSE /\ obsIn = <<>> /\ wr = <<>> /\ st = 0 /\ exited = FALSE
 
 Rd == sc.list[i]
-
-\* kernel in which the list is applied.  A command without a name applies
-\* it in a subshell; whether the child keeps the parent's limit is the
-\* kernel's business (POSIX: yes; VirtualSystem: no).
-Begin ==
-  /\ pc = "begin"
-  /\ k' = IF sc.kind = "empty" /\ Sim THEN [k EXCEPT !.lim = NoLimit] ELSE k
-  /\ pc' = IF Len(sc.list) = 0 THEN "exec" ELSE "check"
-  /\ UNCHANGED <<sc, i, saved, cur, spec, failed, ran, obsIn, wr, st, exited>>
 
 \* redir.rs perform: "Make sure target_fd doesn't have the CLOEXEC flag"
 CheckReserved ==
@@ -374,7 +372,7 @@ FinishError ==
 \* every scenario runs to completion (checked: no deadlock anywhere else)
 Terminated == pc = "done" /\ UNCHANGED vars
 
-Next == \/ Begin \/ CheckReserved \/ Save \/ OpenFile \/ OpenExcl \/ OpenExisting \/ CopyFd
+Next == \/ CheckReserved \/ Save \/ OpenFile \/ OpenExcl \/ OpenExisting \/ CopyFd
         \/ CloseSpec \/ OpenHere \/ Install \/ Record \/ ReleaseSave \/ LeakSave
         \/ RunBody \/ RunNotFound \/ RunEmpty \/ RunExec \/ UndoOne \/ PreserveOne
         \/ Finish \/ FinishError \/ Terminated
@@ -400,7 +398,7 @@ InternalInv ==
      /\ (k.fd[f].cx => f >= 10)
      /\ (f >= 10 /\ ~k.fd[f].cx) => (pc = "install" /\ spec.own /\ spec.fd = f)
 
-TypeOK == /\ pc \in {"begin", "check", "save", "open", "open2", "install", "record", "release",
+TypeOK == /\ pc \in {"check", "save", "open", "open2", "install", "record", "release",
                      "exec", "undo", "unwind", "preserve", "done"}
           /\ i \in 1 .. 3
           /\ failed \in 0 .. 3
